@@ -343,6 +343,16 @@ for _k, _v in {
     "C16": " Also: parse_expr returns only type-checked trees (typed-tree), the invariant the counted typing unwraps rest on.",
 }.items():
     ADDED[_k] = (ADDED.get(_k, "") + _v).strip()
+# round 21 and the observations triaged after it (session 7)
+for _k, _v in {
+    "C06": " Also: the interpreter narrows no operand before it operates (runtime-narrowing, shared with C05).",
+    "C13": " Also: what GcMap::insert stores went through move_out_of_heap_primitive, key and value.",
+    "C14": " Also: ties with an even integer part tell half-away-from-zero from ties-to-even; sqrt of a negative receiver fails (domain).",
+    "C15": " Also: expression generators park waiting values in counter-backed registers only (parked|register-kind).",
+    "C17": " Also: the trace printer walks the frames once, whole (trace-complete).",
+    "C19": " Also: the names of library and function are not cut at a separator on their way to the loader (destination|uncut).",
+}.items():
+    ADDED[_k] = (ADDED.get(_k, "") + _v).strip()
 # round 20 and the observations triaged after it (session 7)
 for _k, _v in {
     "C02": " Also: the static type of a map lookup against what a missing key answers (map-lookup: known finding).",
